@@ -310,8 +310,10 @@ reg(Check("C14", "model_checking",
           "leave|pub|sub, sub|disconnect, leave|eviction, del-sub|unsub|pub, del-topic|sub|pub, two subs in the load gap, idle unload|sub|disconnect, "
           "p2p unsub|unsub|resub, del-user|sub me; atomics loads are scheduling points; oracle at quiescence after virtual time has "
           "settled: every sub/leave/del answered, Session.subs <-> Topic.sessions symmetric, terminated sessions detached, online counters, "
-          "request slots released, no deadlock / panic / livelock; plus deleted topics stay deleted on every transition of the acl and p2p searches",
-          ["deviation-bounded; map iteration order fixed (sorted)", "data-race freedom of the named shared data is not decided (no happens-before detector was built); see DESIGN.md"],
+          "request slots released, no deadlock / panic / livelock, no unprotected access; plus deleted topics stay deleted on every transition of the acl and p2p searches",
+          ["deviation-bounded; map iteration order fixed (sorted)", "protection of shared data is decided as lock discipline: every executed statement mentioning Session.subs / SessionStore.sessCache,lru "
+           "must run with the object's lock held by the executing goroutine (exclusively for writes), Session.terminating / Topic.status only "
+           "through sync/atomic; goroutine-owned topic tables and a free-running race detector pass are not covered; see DESIGN.md 9.2"],
           text="Stateless model checking of the real goroutines under a controlled scheduler with iterative deviation bounding.",
           note="trusted: instrumenter + scheduler shim (self-tested)", technique="stateless model checking of the implementation (controlled scheduler, deviation bounding)",
           engine="E1 detsched", claimed=True,
